@@ -69,6 +69,7 @@ def environments(tier):
         for acts in cat_shapes:
             for ctx in (('dense',) if tier == 'quick' else ['dense', 'absent'] + M.CAT_CTX_KINDS):
                 for rwd in M.RWD_KINDS + M.RWD_MORE:
+                    if ctx in M.CAT_CTX_KINDS and rwd not in ('list', 'callable', 'dmap'): continue
                     d = emit({'n': len(acts), 'ctx': ctx, 'acts': acts, 'rwd': rwd, 'log': list(LOG_ALL), 'extras': 1, 'batch': batch, 'fam': 'F4'})
                     if d: yield d
         for ctx in M.CAT_CTX_KINDS:
@@ -76,6 +77,12 @@ def environments(tier):
                 for rwd in ('list', 'callable'):
                     d = emit({'n': len(acts), 'ctx': ctx, 'acts': acts, 'rwd': rwd, 'log': list(LOG_ALL), 'extras': 1, 'batch': batch, 'fam': 'F4'})
                     if d: yield d
+    # Batch(3): one batch holding all three interactions (a batch-aware learner's (action,prob,kwargs) rows are then a square answer)
+    if tier == 'quick':
+        for ctx in ('dense', 'absent'):
+            for acts in (['int', 'str', 'tup'], ['cat', 'cat2', 'cat']):
+                d = emit({'n': 3, 'ctx': ctx, 'acts': acts, 'rwd': 'list', 'log': list(LOG_ALL), 'extras': 1, 'batch': 3, 'fam': 'F4'})
+                if d: yield d
     # F3: recurrence - every action-set sequence in {A,B}^3 (A,A,A .. A,B,A .. B,B,B) for pairs of sets that do / do not contain 0 or 1
     # (ints and floats) and pairs of other kinds, with contexts that are distinct or return to an earlier value (x0,x1,x0 / x0,x0,x1):
     # state kept between interactions (caches keyed on the previous action set / context) must not leak into a later interaction.
